@@ -851,7 +851,7 @@ func ruleRefKey(c *Ctx) {
 				under := false
 				for _, cl := range c.literalsAt(m, rs) {
 					be, ok := unparen(cl.e).(*ast.BinaryExpr)
-					if !ok || be.Op != token.EQL || cl.neg {
+					if !ok || !(be.Op == token.EQL && !cl.neg || be.Op == token.NEQ && cl.neg) {
 						continue
 					}
 					s, isEmpty := c.constString(be.Y)
